@@ -261,27 +261,31 @@ class G:
         k = self.pick(kinds or ['sr', 'rr', 'app', 'bye', 'sdes', 'fb', 'unk', 'custom'])
         return getattr(self, k)(valid=valid, pad=pad) if k != 'sdes' else self.sdes(valid=valid, pad=pad, maxchunks=3)
 
-    def compound(self, valid=True, depth=0):
+    def compound(self, valid=True, depth=0, nopad=False):
         n = self.pick([0, 1, 2, 2, 3, 4, self.r.randint(0, 6)])
         bad = None
         if not valid:
             if n < 2:
                 n = 2
-            bad = self.pick(['pad-nonlast', 'member'])
+            bad = self.pick(['pad-nonlast', 'member', 'pad-nested'])
         ms = []
         badi = self.r.randrange(n) if n else None
         for i in range(n):
             last = (i == n - 1)
             if bad == 'pad-nonlast' and i == min(badi, n - 2):
                 ms.append(self.leaf(valid=True, pad=self.pad(allow0=False), kinds=['sr', 'rr', 'app', 'bye', 'sdes', 'fb', 'unk', 'custom']))
+            elif bad == 'pad-nested' and i == min(badi, n - 2):
+                # a nested compound whose last member is padded, in a non-last position
+                inner = [self.leaf(valid=True, pad=0) for _ in range(self.pick([0, 1, 2]))]
+                inner.append(self.leaf(valid=True, pad=self.pad(allow0=False)))
+                ms.append('compound %d %s' % (len(inner), ' '.join(inner)))
             elif bad == 'member' and i == badi:
                 ms.append(self.leaf(valid=False))
-            elif depth < 2 and self.chance(0.12):
-                inner = self.compound(valid=True, depth=depth + 1)
-                # a nested compound reports its last member's padding: keep it unpadded unless last
-                ms.append(inner if last else self._strip_nested_padding(inner))
+            elif depth < 2 and self.chance(0.15):
+                # nested compound (possibly empty); only a last one may carry padding
+                ms.append(self.compound(valid=True, depth=depth + 1, nopad=(nopad or not last)))
             else:
-                ms.append(self.leaf(valid=True, pad=(None if last else 0)))
+                ms.append(self.leaf(valid=True, pad=(0 if (nopad or not last) else None)))
         return ('compound %d %s' % (n, ' '.join(ms))).strip()
 
     def _strip_nested_padding(self, inner):
@@ -345,6 +349,53 @@ def mutate(g, img, hint_min=4):
     else:           # flip one bit
         i = g.r.randrange(n)
         b[i] ^= 1 << g.r.randrange(8)
+    return bytes(b)
+
+def mutate_bye(g, img):
+    """BYE-specific boundary mutation: the reason length octet around the bytes that remain"""
+    b = bytearray(img)
+    if len(b) < 8:
+        b += bytes(4); b[3] = (len(b) // 4 - 1) & 0xff
+    cnt = g.pick([0, 1, b[0] & 31, max(0, (len(b) - 8) // 4)])
+    off = 4 + 4 * cnt
+    if off < len(b):
+        b[0] = (b[0] & 0xe0) | (cnt & 31)
+        remaining = len(b) - off - 1
+        b[off] = g.pick([remaining - 1, remaining, remaining + 1, remaining + 2, 0, 255]) & 0xff
+    return bytes(b)
+
+def mutate_sdes(g, img):
+    """SDES-specific boundary mutation: item length / PRIV prefix length around their limits, fill bytes"""
+    b = bytearray(img)
+    if len(b) < 12:
+        return bytes(b)
+    # walk the first chunk's items
+    p = 8
+    items = []
+    while p + 1 < len(b) and b[p] != 0:
+        items.append(p)
+        p += 2 + b[p + 1]
+    c = g.r.randrange(5)
+    if items and c == 0:
+        i = g.pick(items)
+        b[i] = 8
+        ln = b[i + 1]
+        if i + 2 < len(b):
+            b[i + 2] = g.pick([ln - 1, ln, ln + 1, 0, 255]) & 0xff
+    elif items and c == 1:
+        i = g.pick(items)
+        remaining = len(b) - i - 2
+        b[i + 1] = g.pick([remaining - 1, remaining, remaining + 1, remaining - 4, 0]) & 0xff
+    elif c == 2 and p < len(b):
+        q = min(len(b) - 1, p + g.pick([0, 1, 2, 3]))
+        b[q] = g.pick([1, 255, 0])
+    elif c == 3:
+        b[8] = 8; b[9] = g.pick([0, 1, 2]); 
+        if len(b) > 10:
+            b[10] = g.pick([0, 1, 2, 3])
+    else:
+        i = g.r.randrange(4, len(b))
+        b[i] = g.pick([0, 8, 1, 255])
     return bytes(b)
 
 def pad_image(img, p):
